@@ -1140,6 +1140,19 @@ func c12PoolOnce(c *Ctx) {
 				return ok && c.P.FieldKey(fa) == field && ir.IsNilConst(st.Val)
 			}
 			esc := fi.EscapesWithout([]ssa.Instruction{cs.In}, isClear)
+			if len(esc) > 0 {
+				// cleared before the Put (fr := r.fr; r.fr = nil; Put(fr)): the value put was
+				// loaded before a clear that dominates the Put, and nothing re-assigns the field
+				if ld, isLd := ir.Resolve(arg).(*ssa.UnOp); isLd {
+					for _, b := range f.Blocks {
+						for _, in := range b.Instrs {
+							if isClear(in) && fi.Dominates(ld, in) && fi.Dominates(in, cs.In) && len(c.P.StoresTo(f, field)) == 1 {
+								esc = nil
+							}
+						}
+					}
+				}
+			}
 			c.Cond(len(esc) == 0, "C12.O8", key, c.Pos(cs.In), "the wrapper forgets the pooled object", "the object put into the pool at "+c.Pos(cs.In)+" stays in "+field+": a later Close puts it again, and two connections can then draw the same (de)compressor")
 		}
 	}
